@@ -66,6 +66,7 @@ def run(ctx):
     r2_progress(chk, fx)
     r3_catch_all(chk, fx)
     r4_envelope_only(chk, fx)
+    r5_other_replies_survive(chk, fx)
 
 
 def r4_envelope_only(chk, fx):
@@ -266,3 +267,15 @@ def r3_catch_all(chk, fx):
     fu = pr.calls_to("std::str::from_utf8", "core::str::from_utf8", user_only=True)
     chk.instance("C14/R3", "PartialReply::read_xml keeps the buffer only after from_utf8 succeeded", pr.name, fu[0].loc() if fu else None,
                  holds=len(fu) == 1 and pr.ok_edge_of(fu[0], pass_through=tuple(F.PASS_THROUGH)) is not None, key="C14/R3 PartialReply utf8-validation")
+
+
+def r5_other_replies_survive(chk, fx):
+    """'.. and replies to other outstanding requests are still delivered correctly afterwards': a duplicated, mutated or unsolicited
+    reply must not disturb what is already filed.  C05's decisions on the request table — a reply is parked only into its own Pending
+    slot (R2/R3) and nothing is stored over an existing entry (R7) — recorded here."""
+    from . import c05
+    from .c15 import _Rename
+    sub = _Rename(chk, "C05/R", "C14/R5:C05/R")
+    c05.r2_own_slot(sub, fx)
+    c05.r3_state_machine(sub, fx)
+    c05.r7_table_integrity(sub, fx)
